@@ -25,6 +25,7 @@ import Proofs.Structure2
 import Props.C18
 import Proofs.SplitSuccess
 import Proofs.JoinSuccess
+import Proofs.LiftSuccess
 namespace PM.C12
 open PM
 
@@ -735,5 +736,58 @@ example : joinTsSchema.apply (.replace 3 5 Slice.empty true) joinTsDoc = .error 
     inRange, depthAt, Slice.wf, spineL, spineR, outer, atLevel, twoWay,
     splitRight, Schema.close, fromArray, addNodes, addNode, hv,
     Except.map, Schema.compatibleContent]
+
+/-! ### LIFT-BEGIN -/
+
+/-! ### an approved lift applies — when nothing has to be split
+
+    The unguarded statement
+      `liftTarget S doc a b depth = some (some target) → liftStep doc a b depth target = .ok st →
+         ∃ doc', S.apply st doc = .ok doc'`
+    is **false** for the model and for the code alike (upstream too), in two ways, both arising when the lift has
+    to *split* ancestors of the range (the range has siblings before or after it at some level `d`,
+    `target < d ≤ depth`):
+    (a) `can_cut` validates the siblings left behind on their own, but the node left behind also receives the
+        split-off copy of its deeper child (open finding C12-lift-split-invalid; `liftNestSchema` below: the first
+        item of a nested list);
+    (b) `lift_target` asks `node(target).can_replace(index, end_index, content)`, i.e. the target node with the
+        range's ancestor *removed* — but the copies the split leaves behind stay there as extra children
+        (`liftCopySchema` below: doc content `blockquote | paragraph+`, `doc(blockquote(p, p))`, lifting either
+        paragraph is approved — `doc(p)` is valid — and would give `doc(blockquote(p), p)`).
+    `liftFlatGuard` (PM/StructEdit.lean) says that nothing is split: at every level `d`, `target < d ≤ depth`, the
+    range starts at the first child and ends at the last — the two tests of `lift`'s loops.  Then the approval is
+    exactly the validity of the new child list of `node(target)`, up to the merge of the lifted text with its new
+    neighbours: `TextStable` (needed, for code and model: `liftTsSchema` below). -/
+
+/-- **`lift_target` approves ∧ nothing is split ∧ `TextStable` ⇒ `lift` succeeds** with a schema-valid document
+    that keeps the text and leaf nodes.  The range is a node range as `block_range` builds it: `from ≤ to`, `to`
+    inside the node at the range's depth, both ends at child boundaries of that node.  (`target < depth ≤` the
+    depths of both ends is implied by the approval.) -/
+theorem liftTarget_lift_applies_flat (S : Schema) (hts : C01.TextStable S) (doc : Node)
+    (a b depth target : Nat) (f t : RPos) (st : Step)
+    (hv : C01.Valid S doc) (hn : fnorm doc.kids = true)
+    (hf : doc.resolve a = some f) (ht : doc.resolve b = some t)
+    (hab : a ≤ b) (hend : b ≤ f.end_ depth)
+    (hfb : depth < f.depth ∨ f.textOffset = 0) (htb : depth < t.depth ∨ t.textOffset = 0)
+    (hg : liftFlatGuard doc a b depth target = true)
+    (hc : liftTarget S doc a b depth = some (some target))
+    (hb : liftStep doc a b depth target = .ok st) :
+    ∃ doc', S.apply st doc = .ok doc' ∧ C01.Valid S doc' ∧
+      (ftoks doc'.kids).filter Tok.isContent = (ftoks doc.kids).filter Tok.isContent := by
+  obtain ⟨htd, hdf, _⟩ := liftTarget_in_range S doc a b depth target f t hf ht hc
+  have hg' : liftFlatGuardR f t depth target = true := by simpa [liftFlatGuard, hf, ht] using hg
+  have hc' : liftTargetR S f t depth = some (some target) := by simpa [liftTarget, hf, ht] using hc
+  have hb' : liftStepR f t depth target = .ok st := by simpa [liftStep, hf, ht] using hb
+  have R := resolve_resolved hf
+  cases doc with
+  | text s m => have := R.depth_eq; simp [Node.kids, depthAt] at this; omega
+  | leaf ty at_ m => have := R.depth_eq; simp [Node.kids, depthAt] at this; omega
+  | elem ty0 a0 m0 K =>
+    obtain ⟨⟨doc', hap⟩, f', t', gs, ge, rfl, hpay⟩ :=
+      lift_flat_applies S hts ty0 a0 m0 K a b depth target f t st hf ht hv hn hab hend hfb htb hg' hc' hb'
+    exact ⟨doc', hap, C01.apply_valid S (.replaceAround f' t' gs ge ⟨[], 0, 0⟩ 0 true) _ doc' hv hpay hap,
+      lift_keeps_content S _ doc' a b depth target _ hab hb hap⟩
+
+/-! ### LIFT-END -/
 
 end PM.C12
